@@ -2,10 +2,10 @@ package props
 
 import (
 	"bytes"
-	"math/big"
 	"crypto/cipher"
 	"encoding/json"
 	"fmt"
+	"math/big"
 	"sort"
 	"strings"
 
@@ -49,6 +49,7 @@ type c10Op struct {
 
 type c10Script struct {
 	Asm   bool       `json:"asm"`
+	Prior []aeadSpec `json:"prior,omitempty"` // AEADs built earlier on the same Block as AEADs[0]
 	AEADs []aeadSpec `json:"aeads"`
 	Msgs  []c10Buf   `json:"msgs"`
 	AADs  []c10Buf   `json:"aads"`
@@ -57,7 +58,7 @@ type c10Script struct {
 
 type c10 struct{}
 
-func init() { core.Register(c10{}) }
+func init()            { core.Register(c10{}) }
 func (c10) ID() string { return "C10" }
 
 func (c10) Plan(tier string) core.Plan {
@@ -143,6 +144,9 @@ func (c10) Generate(idx int, r *core.Rand, tier string) core.Script {
 	for i := w.Range(1, 2); i > 0; i-- {
 		s.AEADs = append(s.AEADs, genAEADSpec(w))
 	}
+	if w.Chance(1, 6) {
+		s.Prior = append(s.Prior, genAEADSpec(w))
+	}
 	for i := w.Range(1, 3); i > 0; i-- {
 		s.Msgs = append(s.Msgs, c10Buf{Len: c10GenLen(w), Seed: w.Uint64(), Zero: w.Chance(1, 10)})
 	}
@@ -217,14 +221,25 @@ func newPool() *pool {
 	return &pool{bufs: map[string][]byte{}, snap: map[string][]byte{}, role: map[string]string{}, tag: map[string]int{}, uses: map[string]int{}}
 }
 
+// put registers a caller buffer. The buffer is re-homed into memory with some spare
+// capacity behind it (0, 32, 64 or 100 bytes, chosen from its name) filled with a
+// canary: the bytes between len and cap are the caller's memory too (the next field of
+// a packet, say) and an operation must not write there either.
 func (p *pool) put(name, role string, b []byte) []byte {
 	if _, ok := p.bufs[name]; !ok {
 		p.names = append(p.names, name)
 	}
-	p.bufs[name] = b
-	p.snap[name] = append([]byte{}, b...)
+	extra := []int{0, 32, 64, 100}[core.Hash64(name)%4]
+	nb := slackBuf(len(b), len(b)+extra)
+	copy(nb, b)
+	full := nb[:cap(nb)]
+	for i := len(b); i < len(full); i++ {
+		full[i] = byte(0x5A ^ i)
+	}
+	p.bufs[name] = nb
+	p.snap[name] = append([]byte{}, full...)
 	p.role[name] = role
-	return b
+	return nb
 }
 
 // damaged returns the first pool buffer that differs from its snapshot.
@@ -234,12 +249,16 @@ func (p *pool) damaged(exempt string) (name, role string, at int, ok bool) {
 			continue
 		}
 		b, s := p.bufs[n], p.snap[n]
-		if len(b) != len(s) {
+		full := b[:cap(b)]
+		if len(full) != len(s) {
 			return n, p.role[n], -1, true
 		}
-		for i := range b {
-			if b[i] != s[i] {
+		for i := range full {
+			if full[i] != s[i] {
 				role = p.role[n]
+				if i >= len(b) {
+					return n, role + "-spare-capacity", i, true
+				}
 				if role == "ciphertext" {
 					if i >= len(b)-p.tag[n] {
 						role = "ciphertext-tag"
@@ -283,7 +302,11 @@ func (c10) Execute(sc core.Script, keep bool) *core.Result {
 		for i, sp := range s.AEADs {
 			key := pl.put(fmt.Sprintf("key%d", i), "key", cloneSlack(unhx(sp.Key)))
 			sp2 := sp
-			a, b, eff, err := mkAEADKey(sp2, key, asm)
+			var prior []aeadSpec
+			if i == 0 {
+				prior = s.Prior
+			}
+			a, b, eff, err := mkAEADHistory(sp2, key, asm, prior)
 			if err != nil {
 				panic(fmt.Sprintf("cannot construct AEAD %+v: %v", sp, err))
 			}
@@ -302,7 +325,7 @@ func (c10) Execute(sc core.Script, keep bool) *core.Result {
 	var kinds []string
 	checkPool := func(op, exempt, param string) {
 		if n, role, at, bad := pl.damaged(exempt); bad {
-			report("input-modified", op, role, param, fmt.Sprintf("%s changed the caller's %s buffer %s at byte %d: %x -> %x", op, role, n, at, pl.snap[n], pl.bufs[n]))
+			report("input-modified", op, role, param, fmt.Sprintf("%s changed the caller's %s buffer %s at byte %d (len %d, cap %d): %x -> %x", op, role, n, at, len(pl.bufs[n]), cap(pl.bufs[n]), pl.snap[n], pl.bufs[n][:cap(pl.bufs[n])]))
 		}
 	}
 	for i, op := range s.Ops {
